@@ -253,6 +253,49 @@ func thoroughExtras(c *Ctx, pc *propCheck) {
 		runtime.GC()
 	}
 
+	// REFACTOR-SILENT: stored behaviour-preserving refactorings of this property's code (/verif/benign/<P>-*), applied in
+	// memory, must not make any obligation fail that holds today
+	c.Rule("REFACTOR-SILENT", "each stored behaviour-preserving refactoring of the property's code leaves every obligation discharged", 0)
+	benignRoot := filepath.Join(verifDir, "benign")
+	bents, _ := os.ReadDir(benignRoot)
+	for _, e := range bents {
+		if !e.IsDir() || !strings.HasPrefix(e.Name(), pc.ID+"-") {
+			continue
+		}
+		patch, err := os.ReadFile(filepath.Join(benignRoot, e.Name(), "patch.diff"))
+		if err != nil {
+			continue
+		}
+		overlayRel, err := applyUnifiedDiff(string(patch), func(rel string) ([]byte, error) { return os.ReadFile(filepath.Join(repoDir, rel)) })
+		if err != nil {
+			c.Note("REFACTOR-SILENT: %s does not apply to today's source (%v): skipped", e.Name(), err)
+			continue
+		}
+		overlay := map[string][]byte{}
+		for rel, b := range overlayRel {
+			overlay[filepath.Join(repoDir, rel)] = b
+		}
+		mp, err := LoadProg(overlay, "")
+		if err != nil {
+			c.Note("REFACTOR-SILENT: %s: variant does not load (%v): skipped", e.Name(), short(err.Error(), 120))
+			continue
+		}
+		mc, panicked := runQuiet(mp, pc)
+		var alarms []string
+		if panicked != nil {
+			alarms = append(alarms, fmt.Sprintf("panic: %v", panicked))
+		}
+		for k := range failedKeys(mc) {
+			if _, already := base[k]; !already {
+				alarms = append(alarms, strings.Replace(k, "|", ": ", 1))
+			}
+		}
+		sort.Strings(alarms)
+		c.Ob("REFACTOR-SILENT", e.Name(), token.NoPos, len(alarms) == 0, true, "behaviour-preserving refactoring applied in memory: new failing obligations: %v (any is a false alarm of the machinery)", alarms)
+		mp, mc = nil, nil
+		runtime.GC()
+	}
+
 	switch pc.ID {
 	case "C13", "C14", "C19":
 		thoroughWindows(c, pc)
